@@ -1,2 +1,312 @@
+"""R12.4 — shortcut-flag discipline (part of C12).
+
+STRING_FLAGS_SINGLE_MATCH lets fast mode stop after the first match of a
+string; STRING_FLAGS_FIXED_OFFSET makes the scanner verify the string only at
+string->fixed_offset. Both are set for every string when it is declared and
+must be cleared whenever the condition uses the string in a way the shortcut
+cannot serve:
+
+  use of string S by instruction I                 must hold at success exit
+  ------------------------------------------------ ---------------------------
+  any I other than OP_FOUND                        SINGLE_MATCH cleared on S
+  any I other than OP_FOUND_AT with offset equal   FIXED_OFFSET cleared on S
+  to the recorded one
+
+Decided path-sensitively over the CFG of the two parser.c functions that
+push strings, tracking the facts {pushed, cleared-SM, cleared-FO, I==FOUND,
+I==FOUND_AT, offset==recorded}; plus who-may-set and read-only-with-flag
+rules for the three shortcut flags.
+"""
+from .. import cfgutil as cu
+from .. import paths
+
+TRACK_VAR = 'string'
+
+
+def _flag_clear(fn, n, flag_vals):
+    """n is `X->flags &= ~K` on the tracked variable -> flag name"""
+    if n['k'] != 'bin' or n['op'] != '&=':
+        return None
+    lhs = fn.kid(n, 0)
+    root, path = cu.member_path(fn, lhs)
+    if root is None or root['k'] != 'ref' or root['name'] != TRACK_VAR or path != ['flags']:
+        return None
+    rhs = cu.strip_casts(fn, fn.kid(n, 1))
+    v = cu.const_of(rhs)
+    if v is None:
+        return None
+    out = []
+    for name, bit in flag_vals.items():
+        if (v & bit) == 0:
+            out.append(name)
+    return out
+
+
+def _assigns_tracked(fn, n):
+    """does evaluating n (re)bind the tracked string variable"""
+    if n['k'] == 'bin' and n['op'] == '=':
+        l = fn.kid(n, 0)
+        if l is not None and l['k'] == 'ref' and l['name'] == TRACK_VAR:
+            return True
+    if n['k'] == 'un' and n['op'] == '&':
+        l = fn.kid(n, 0)
+        if l is not None and l['k'] == 'ref' and l['name'] == TRACK_VAR:
+            return True
+    return False
+
+
+def check_function(ctx, fname, mode):
+    prog = ctx.prog
+    f = ctx.fn(fname, 'libyara/parser.c')
+    flag_vals = {'SM': prog.macro_value('STRING_FLAGS_SINGLE_MATCH'),
+                 'FO': prog.macro_value('STRING_FLAGS_FIXED_OFFSET')}
+    ctx.require(None not in flag_vals.values(), 'shortcut flag macros not evaluable')
+    op_found = prog.macro_value('OP_FOUND')
+    op_found_at = prog.macro_value('OP_FOUND_AT')
+    op_push = prog.macro_value('OP_PUSH')
+    undef = prog.macro_value('YR_UNDEFINED')
+    has_instr = any(p['name'] == 'instruction' for p in f.params)
+    reports = {}
+    uses = [0]
+
+    def in_loop_over_strings(n):
+        for a in f.ancestors(n):
+            if a['k'] == 'for' and 'yr_rule_strings_foreach' in f.macros(a):
+                return True
+        return False
+
+    def check(facts, where_node, what):
+        if 'pushed' not in facts:
+            return
+        sm_ok = 'clrSM' in facts or 'isFOUND' in facts
+        fo_ok = 'clrFO' in facts or ('isFOUND_AT' in facts and 'offEq' in facts)
+        if not sm_ok:
+            reports.setdefault('SINGLE_MATCH', (where_node, what, sorted(facts)))
+        if not fo_ok:
+            reports.setdefault('FIXED_OFFSET', (where_node, what, sorted(facts)))
+
+    def step(n, facts):
+        k = n['k']
+        if _assigns_tracked(f, n):
+            # the variable is about to denote another string: the obligations
+            # of the previous one must be settled here
+            check(facts, n, 'next string')
+            facts = facts - {'pushed', 'clrSM', 'clrFO', 'offEq'}
+            if mode == 'anon+named' and in_loop_over_strings(n):
+                # `$` inside a loop stands for every string of the rule
+                facts = facts | {'pushed'}
+                uses[0] += 1
+            return facts
+        if k == 'call' and n.get('callee') == 'yr_parser_emit_with_arg_reloc':
+            args = f.call_args(n)
+            if len(args) >= 3 and cu.const_of(args[1]) == op_push:
+                a = cu.strip_casts(f, args[2])
+                if a is not None and a['k'] == 'ref' and a['name'] == TRACK_VAR:
+                    uses[0] += 1
+                    return facts | {'pushed'}
+        cl = _flag_clear(f, n, flag_vals)
+        if cl:
+            return facts | set('clr' + c for c in cl)
+        if k == 'ret':
+            v = f.kid(n, 0)
+            c = cu.const_of(v) if v is not None else None
+            if any(m.startswith(('FAIL_ON_', 'GOTO_EXIT_ON_')) for m in f.macros(n)):
+                return facts        # error return of the repo's FAIL_ON_* idiom
+            if c is None or c == 0:
+                check(facts, n, 'success return')
+            return facts
+        return facts
+
+    def edge(b, term, cond, idx, succ, facts):
+        pol = paths.branch_polarity(f, term, idx)
+        if pol is None or cond is None:
+            return facts
+        c, pol = paths.normalise_cond(f, cond, pol)
+        if c is None or c['k'] != 'bin' or c['op'] not in ('==', '!='):
+            return facts
+        a, bb = cu.strip_casts(f, f.kid(c, 0)), cu.strip_casts(f, f.kid(c, 1))
+        eq = (c['op'] == '==') == pol       # this edge means a == b
+        # string == NULL: the loop over strings is over, nothing is denoted
+        for x, y in ((a, bb), (bb, a)):
+            if x is not None and x['k'] == 'ref' and x['name'] == TRACK_VAR and \
+                    cu.const_of(y) == 0 and eq:
+                return facts - {'pushed', 'clrSM', 'clrFO', 'offEq'}
+        # instruction == OP_X
+        for x, y in ((a, bb), (bb, a)):
+            if x is not None and x['k'] == 'ref' and x['name'] == 'instruction':
+                v = cu.const_of(y)
+                if v == op_found:
+                    if eq:
+                        if 'notFOUND' in facts:
+                            return None
+                        return facts | {'isFOUND'}
+                    if 'isFOUND' in facts:
+                        return None
+                    return facts | {'notFOUND'}
+                if v == op_found_at:
+                    if eq:
+                        if 'notFOUND_AT' in facts or 'isFOUND' in facts:
+                            return None
+                        return facts | {'isFOUND_AT'}
+                    if 'isFOUND_AT' in facts:
+                        return None
+                    return facts | {'notFOUND_AT'}
+        # string->fixed_offset == at_offset
+        def is_fixed(n):
+            r, p = cu.member_path(f, n)
+            return r is not None and r['k'] == 'ref' and r['name'] == TRACK_VAR and p == ['fixed_offset']
+        for x, y in ((a, bb), (bb, a)):
+            if is_fixed(x) and y is not None and y['k'] == 'ref' and y['name'] == 'at_offset':
+                if eq:
+                    return facts | {'offEq'}
+        return facts
+
+    init = set()
+    try:
+        paths.explore(f, init, step, edge)
+    except paths.Budget as e:
+        ctx.require(False, str(e))
+    ctx.require(uses[0] > 0, 'R12.4: no string use site recognised in ' + fname)
+    for flag in ('SINGLE_MATCH', 'FIXED_OFFSET'):
+        key = '%s:%s-cleared-or-served' % (fname, flag)
+        if flag in reports:
+            n, what, facts = reports[flag]
+            ctx.ob('R12.4', key, False, f.loc(n),
+                   'a path reaches the %s with a string pushed for use but '
+                   'STRING_FLAGS_%s neither cleared nor served by the instruction '
+                   '(facts on that path: %s)' % (what, flag, ', '.join(facts)))
+        else:
+            ctx.ob('R12.4', key, True, '%s:%s' % (f.file, f.line),
+                   'every path that pushes a string clears STRING_FLAGS_%s unless '
+                   'the instruction is served by the shortcut' % flag)
+
+
+WHO_MAY_SET = {
+    # flag -> functions allowed to set it (|=) and why
+    'STRING_FLAGS_SINGLE_MATCH': {'yr_parser_reduce_string_declaration':
+                                  'set for every new string before any use'},
+    'STRING_FLAGS_FIXED_OFFSET': {'yr_parser_reduce_string_declaration':
+                                  'set for every new string before any use'},
+    'STRING_FLAGS_FITS_IN_ATOM': {'_yr_parser_write_string':
+                                  'set only when the whole literal is the atom'},
+}
+
+
+def who_may_set(ctx):
+    prog = ctx.prog
+    vals = {k: prog.macro_value(k) for k in WHO_MAY_SET}
+    ctx.require(None not in vals.values(), 'flag macros not evaluable')
+    seen = {k: 0 for k in WHO_MAY_SET}
+    for f in prog.fns():
+        if not f.file.startswith('libyara/'):
+            continue
+        for n in f.all_nodes():
+            if n['k'] != 'bin' or n['op'] not in ('|=', '='):
+                continue
+            lhs = f.kid(n, 0)
+            if lhs is None or lhs['k'] != 'member' or lhs['fld'] != 'flags':
+                continue
+            if lhs.get('rec') not in ('YR_STRING', 'YR_MODIFIER'):
+                continue
+            rhs = cu.strip_casts(f, f.kid(n, 1))
+            v = cu.const_of(rhs)
+            if v is None or n['op'] == '=':
+                continue
+            for name, bit in vals.items():
+                if v & bit:
+                    seen[name] += 1
+                    ok = f.name in WHO_MAY_SET[name]
+                    ctx.ob('R12.4w', '%s:sets:%s' % (f.name, name), ok, f.loc(n),
+                           ('allowed setter: ' + WHO_MAY_SET[name][f.name]) if ok else
+                           '%s is set outside the function that establishes its '
+                           'precondition' % name)
+    for name, c in seen.items():
+        ctx.require(c > 0 or ctx.fixture, 'R12.4w: no site sets %s' % name)
+    # FITS_IN_ATOM only under the max_string_len <= YR_MAX_ATOM_LENGTH test
+    f = prog.fn('_yr_parser_write_string', 'libyara/parser.c')
+    if f is not None:
+        bit = vals['STRING_FLAGS_FITS_IN_ATOM']
+        for n in f.all_nodes():
+            if n['k'] == 'bin' and n['op'] == '|=' and \
+                    (cu.const_of(cu.strip_casts(f, f.kid(n, 1))) or 0) & bit:
+                guarded = False
+                for a in f.ancestors(n):
+                    if a['k'] == 'if':
+                        c = f.kid(a, 0)
+                        txt = f.show(c)
+                        if 'max_string_len' in txt and '<=' in txt:
+                            guarded = True
+                ctx.ob('R12.4w', '_yr_parser_write_string:FITS_IN_ATOM-guarded', guarded,
+                       f.loc(n), 'FITS_IN_ATOM set under max_string_len <= YR_MAX_ATOM_LENGTH'
+                       if guarded else 'FITS_IN_ATOM set without the length test')
+    # fixed_offset is written only by the parser
+    for f in prog.fns():
+        if not f.file.startswith('libyara/'):
+            continue
+        for n in f.all_nodes():
+            if n['k'] == 'bin' and n['op'] == '=':
+                lhs = f.kid(n, 0)
+                if lhs is not None and lhs['k'] == 'member' and lhs['fld'] == 'fixed_offset' \
+                        and lhs.get('rec') == 'YR_STRING':
+                    ok = f.file.endswith('parser.c')
+                    ctx.ob('R12.4w', '%s:writes-fixed_offset' % f.name, ok, f.loc(n),
+                           'fixed_offset written by the parser' if ok else
+                           'fixed_offset written outside the parser')
+
+
+def reads_with_flag(ctx):
+    """scan-time readers use a shortcut only together with its flag"""
+    prog = ctx.prog
+    sm = prog.macro_value('STRING_FLAGS_SINGLE_MATCH')
+    fo = prog.macro_value('STRING_FLAGS_FIXED_OFFSET')
+    fast = prog.macro_value('SCAN_FLAGS_FAST_MODE')
+    n_reads = 0
+    for f in prog.fns():
+        if not f.file.startswith('libyara/') or f.file.endswith(('parser.c', 'grammar.c', 'grammar.y')):
+            continue
+        for n in f.all_nodes():
+            # read of string->fixed_offset
+            if n['k'] == 'member' and n['fld'] == 'fixed_offset' and n.get('rec') == 'YR_STRING':
+                p = f.parent(n)
+                if p is not None and p['k'] == 'bin' and p['op'] == '=' and f.kid(p, 0) is n:
+                    continue
+                n_reads += 1
+                # must be inside a condition that also tests FIXED_OFFSET
+                ok = False
+                for a in f.ancestors(n):
+                    if a['k'] == 'bin' and a['op'] == '&&':
+                        txt = [x for x in f.walk(a) if x['k'] == 'bin' and x['op'] == '&'
+                               and cu.const_of(cu.strip_casts(f, f.kid(x, 1))) == fo]
+                        if txt:
+                            ok = True
+                ctx.ob('R12.4r', '%s:fixed_offset-read-with-flag' % f.name, ok, f.loc(n),
+                       'fixed_offset consulted only when STRING_FLAGS_FIXED_OFFSET is set'
+                       if ok else 'fixed_offset consulted without testing its flag')
+            # test of SINGLE_MATCH
+            if n['k'] == 'bin' and n['op'] == '&' and \
+                    cu.const_of(cu.strip_casts(f, f.kid(n, 1))) == sm:
+                l = f.kid(n, 0)
+                if l is None or l['k'] != 'member' or l['fld'] != 'flags' or l.get('rec') != 'YR_STRING':
+                    continue
+                n_reads += 1
+                ok = False
+                for a in f.ancestors(n):
+                    if a['k'] == 'bin' and a['op'] == '&&':
+                        if any(x['k'] == 'bin' and x['op'] == '&' and
+                               cu.const_of(cu.strip_casts(f, f.kid(x, 1))) == fast
+                               for x in f.walk(a)):
+                            ok = True
+                ctx.ob('R12.4r', '%s:single_match-only-in-fast-mode' % f.name, ok, f.loc(n),
+                       'SINGLE_MATCH shortcut taken only in fast mode' if ok else
+                       'SINGLE_MATCH shortcut taken without SCAN_FLAGS_FAST_MODE')
+    ctx.require(n_reads >= 2 or ctx.fixture, 'R12.4r: shortcut readers not found')
+
+
 def run(ctx):
-    pass
+    check_function(ctx, 'yr_parser_emit_pushes_for_strings', 'named')
+    check_function(ctx, 'yr_parser_reduce_string_identifier', 'anon+named')
+    who_may_set(ctx)
+    reads_with_flag(ctx)
+    ctx.floor('R12.4', 4)
+    ctx.floor('R12.4w', 4)
+    ctx.floor('R12.4r', 2)
